@@ -266,6 +266,8 @@ pub struct Profile {
     pub switch: bool,
     pub loops: bool,
     pub seq_effects: bool,
+    /// initialisers, assignments, arguments and returns may have another (implicitly convertible) type
+    pub implicit: bool,
     pub namespaces: bool,
     pub resources: bool,
     pub pipelines: bool,
@@ -297,6 +299,7 @@ impl Profile {
             switch: true,
             loops: true,
             seq_effects: true,
+            implicit: true,
             namespaces: false,
             resources: false,
             pipelines: false,
@@ -337,6 +340,7 @@ pub struct Gen<'a> {
     cur_writes_statics: bool,
     cur_reads_statics: bool,
     cur_struct: Option<usize>,
+    pub implicit_sites: u32,
     /// functions callable from the function being generated (indices into prog.funcs)
     callable: Vec<usize>,
     pub diverted: u32,
@@ -362,6 +366,7 @@ impl<'a> Gen<'a> {
             cur_writes_statics: false,
             cur_reads_statics: false,
             cur_struct: None,
+            implicit_sites: 0,
             callable: Vec::new(),
             diverted: 0,
             fuel: 4000,
@@ -602,6 +607,36 @@ impl<'a> Gen<'a> {
         if !Self::is_lit(&e) && Self::lit_typed(&e) { E::Cast(ty.clone(), Box::new(e)) } else { e }
     }
 
+    /// An expression that is implicitly convertible to `ty`: usually of exactly that type, sometimes of
+    /// another scalar kind, a scalar for a vector (splat) or a longer vector (truncation).
+    pub fn conv_expr(&mut self, ty: &Ty, depth: u32) -> E {
+        if !self.prof.implicit || self.exhausted() || self.pick(4) != 0 {
+            return self.expr(ty, depth);
+        }
+        let kinds: Vec<Sc> = self.scalar_pool();
+        let src = match ty {
+            Ty::S(sc) => {
+                let others: Vec<Sc> = kinds.iter().copied().filter(|k| k != sc).collect();
+                Ty::S(others[self.pick(others.len())])
+            }
+            Ty::V(sc, n) if self.prof.vectors => match self.pick(4) {
+                0 => Ty::S(*sc),
+                1 => {
+                    let others: Vec<Sc> = [Sc::Int, Sc::UInt, Sc::Float].into_iter().filter(|k| k != sc).collect();
+                    Ty::S(others[self.pick(others.len())])
+                }
+                2 if *n < 4 => Ty::V(*sc, n + 1),
+                _ => {
+                    let others: Vec<Sc> = [Sc::Int, Sc::UInt, Sc::Float].into_iter().filter(|k| k != sc).collect();
+                    Ty::V(others[self.pick(others.len())], *n)
+                }
+            },
+            other => other.clone(),
+        };
+        self.implicit_sites += 1;
+        self.expr(&src, depth)
+    }
+
     fn leaf(&mut self, ty: &Ty) -> E {
         let vars = self.vars_of(ty, false);
         if !vars.is_empty() && self.pick(3) != 0 {
@@ -748,8 +783,10 @@ impl<'a> Gen<'a> {
         while keep > 0 && f.params[keep - 1].default.is_some() && self.pick(2) == 0 {
             keep -= 1;
         }
+        // an argument of another type would change which overload or template instance is selected
+        let exact = f.template.is_some() || self.prog.funcs.iter().filter(|g| g.name == f.name).count() > 1;
         for p in f.params.iter().take(keep) {
-            let mut a = self.expr(&p.ty, depth.saturating_sub(1));
+            let mut a = if exact { self.expr(&p.ty, depth.saturating_sub(1)) } else { self.conv_expr(&p.ty, depth.saturating_sub(1)) };
             // an untyped literal argument makes overload resolution ambiguous between int and uint: cast it
             if Self::is_lit(&a) {
                 a = E::Cast(p.ty.clone(), Box::new(a));
@@ -1171,7 +1208,7 @@ impl<'a> Gen<'a> {
             0..=3 => {
                 // local declaration
                 let ty = self.pick_value_ty();
-                let init = self.expr(&ty, ed);
+                let init = self.conv_expr(&ty, ed);
                 let is_const = self.pick(6) == 0;
                 let name = self.declare(ty.clone(), is_const, false);
                 out.push(St::Decl(ty, name, Some(init), is_const));
@@ -1227,7 +1264,7 @@ impl<'a> Gen<'a> {
                         out.push(St::Decl(t2, n2, Some(E::Comma(Box::new(asg), Box::new(other))), false));
                     }
                     _ => {
-                        let rhs = self.expr(&ty, ed);
+                        let rhs = self.conv_expr(&ty, ed);
                         out.push(St::Expr(E::Assign("=", Box::new(lv), Box::new(rhs))));
                     }
                 }
@@ -1284,7 +1321,7 @@ impl<'a> Gen<'a> {
             15 if self.cur_ret != Ty::Void && depth > 0 => {
                 let c = self.expr(&Ty::S(Sc::Bool), 2);
                 let rt = self.cur_ret.clone();
-                let r = self.expr(&rt, 3);
+                let r = self.conv_expr(&rt, 3);
                 out.push(St::If(c, vec![St::Return(Some(r))], None));
             }
             16 | 17 => self.call_stmt(out),
@@ -1314,9 +1351,10 @@ impl<'a> Gen<'a> {
         }
         let mut args = Vec::new();
         let mut pre = Vec::new();
+        let exact = f.template.is_some() || self.prog.funcs.iter().filter(|g| g.name == f.name).count() > 1;
         for p in &f.params {
             if p.io == 0 {
-                let mut a = self.expr(&p.ty, 3);
+                let mut a = if exact { self.expr(&p.ty, 3) } else { self.conv_expr(&p.ty, 3) };
                 if Self::is_lit(&a) {
                     a = E::Cast(p.ty.clone(), Box::new(a));
                 }
@@ -1453,7 +1491,7 @@ impl<'a> Gen<'a> {
             self.stmt(depth, &mut body);
         }
         if ret != Ty::Void {
-            let e = self.expr(&ret, self.prof.expr_depth);
+            let e = self.conv_expr(&ret, self.prof.expr_depth);
             body.push(St::Return(Some(e)));
         }
         self.scopes.pop();
